@@ -374,75 +374,139 @@ def check_hyperplane(prog, res, rule='L2'):
   clipped with min for 'valley' (constraint x.h >= 0) and max otherwise."""
   fn = prog.function(LL + '._project_onto_hyperplane')
   res.analysed(fn)
-  defs = {}
-  for st in ast.walk(fn.node):
-    if isinstance(st, ast.Assign) and isinstance(st.targets[0], ast.Name):
-      defs.setdefault(st.targets[0].id, []).append(st)
+  import copy as _copy
 
   def ext(c):
     return prog.ext_name(fn.module, c.func) if isinstance(c, ast.Call) else None
 
-  def need(name):
-    if name not in defs:
-      raise AnalysisError('%s: definition of %s vanished' % (fn.qualname,
-                                                             name))
-    return defs[name]
+  def written_back(kind):
+    """closed form of the list whose elements are written back into the
+    layers, for direction == 'valley' (kind True) or any other direction: the
+    statements of the executed arms, every local replaced by its value"""
+    env = {}
+
+    class S(ast.NodeTransformer):
+      def visit_Name(self, n):
+        if isinstance(n.ctx, ast.Load) and n.id in env:
+          return _copy.deepcopy(env[n.id])
+        return n
+
+    def sub(e):
+      return S().visit(_copy.deepcopy(e))
+    out = []
+
+    def block(stmts):
+      for st in stmts:
+        if isinstance(st, ast.If) and 'direction' in names_read(st.test):
+          t = st.test
+          lit = const_value(t.comparators[0], None) if isinstance(
+              t, ast.Compare) and len(t.ops) == 1 else None
+          if lit not in ('valley', 'peak') or not isinstance(
+              t.ops[0], (ast.Eq, ast.NotEq)):
+            raise AnalysisError('%s: direction test `%s` not understood' % (
+                fn.qualname, norm_text(t)[:50]))
+          holds = (lit == 'valley') == kind
+          if isinstance(t.ops[0], ast.NotEq):
+            holds = not holds
+          block(st.body if holds else st.orelse)
+        elif isinstance(st, ast.Assign) and len(st.targets) == 1 and \
+            isinstance(st.targets[0], ast.Name):
+          if st.targets[0].id in ('layers',):
+            continue
+          env[st.targets[0].id] = sub(st.value)
+        elif isinstance(st, ast.For):
+          for c in ast.walk(st):
+            if isinstance(c, ast.Call) and getattr(prog.resolve_call(
+                fn, c), 'name', '') == '_set_element':
+              it = st.iter
+              if isinstance(it, ast.Call) and dotted(it.func) == 'zip' and \
+                  len(it.args) == 2 and dotted(it.args[1]) == 'vertices' \
+                  and isinstance(st.target, ast.Tuple):
+                kw = {k.arg: k.value for k in c.keywords}
+                if dotted(kw.get('value')) == dotted(st.target.elts[0]) and \
+                    dotted(kw.get('indices')) == dotted(st.target.elts[1]):
+                  out.append(sub(it.args[0]))
+    block(fn.node.body)
+    if len(out) != 1:
+      raise AnalysisError('%s: the write-back loop over zip(<projected>, '
+                          'vertices) was not found' % fn.qualname)
+    return out[0]
+
+  def kwv(c, name, pos=None):
+    for k in c.keywords:
+      if k.arg == name:
+        return k.value
+    if pos is not None and len(c.args) > pos:
+      return c.args[pos]
+    return None
+
+  def txt(e):
+    return norm_text(e).replace(' ', '')
 
   probs = []
-  v0 = need('violation')[0].value
-  if not (ext(v0) == 'tf.reduce_sum' and isinstance(v0.args[0], ast.BinOp)
-          and isinstance(v0.args[0].op, ast.Mult) and {
-              dotted(v0.args[0].left), dotted(v0.args[0].right)} == {
-                  'affected_weights', 'hyperplane'}):
-    raise AnalysisError('%s: violation is not reduce_sum(affected_weights * '
-                        'hyperplane)' % fn.qualname)
-  ax = const_value({k.arg: k.value for k in v0.keywords}.get('axis'))
-  if ax != -1:
-    probs.append('the violation is summed over axis %s, not over the stacked '
-                 'vertex axis -1' % ax)
-  clip = None
-  for st in ast.walk(fn.node):
-    if isinstance(st, ast.If) and 'direction' in names_read(st.test):
-      lit = None
-      if isinstance(st.test, ast.Compare):
-        lit = const_value(st.test.comparators[0])
-      ops = {}
-      for branch, nm in ((st.body, lit), (st.orelse, 'other')):
-        for a in branch:
-          if isinstance(a, ast.Assign) and isinstance(a.value, ast.Call):
-            ops[nm] = (ext(a.value), const_value(a.value.args[1]))
-      clip = ops
-  if not clip:
-    raise AnalysisError('%s: clipping of the violation not found' %
-                        fn.qualname)
-  if clip.get('valley') != ('tf.minimum', 0.0):
-    probs.append("'valley' must keep only negative violations "
-                 "(tf.minimum(violation, 0.0)); found %s" % (clip.get(
-                     'valley'),))
-  if clip.get('other') != ('tf.maximum', 0.0):
-    probs.append("'peak' must keep only positive violations "
-                 "(tf.maximum(violation, 0.0)); found %s" % (clip.get(
-                     'other'),))
-  cf = need('correction_factor')[0].value
-  if not (isinstance(cf, ast.BinOp) and isinstance(cf.op, ast.Div)
-          and dotted(cf.left) == 'violation' and ext(cf.right) ==
-          'tf.reduce_sum' and isinstance(cf.right.args[0], ast.BinOp)
-          and isinstance(cf.right.args[0].op, ast.Mult)
-          and dotted(cf.right.args[0].left) == 'hyperplane'
-          and dotted(cf.right.args[0].right) == 'hyperplane'):
-    probs.append('the step is not violation / (hyperplane . hyperplane): %s' %
-                 norm_text(cf)[:60])
-  co = need('correction')[0].value
-  if not (isinstance(co, ast.BinOp) and isinstance(co.op, ast.Mult)
-          and 'correction_factor' in names_read(co)
-          and 'hyperplane' in names_read(co)):
-    probs.append('the correction is not correction_factor * hyperplane')
-  pr = need('projection')[0].value
-  if not (isinstance(pr, ast.BinOp) and isinstance(pr.op, ast.Sub)
-          and dotted(pr.left) == 'affected_weights'
-          and dotted(pr.right) == 'correction'):
-    probs.append('the projection is %s, expected affected_weights - '
-                 'correction' % norm_text(pr)[:50])
+  clip = {}
+  for kind, word in ((True, 'valley'), (False, 'other')):
+    u = written_back(kind)
+    if not (ext(u) == 'tf.unstack' and const_value(kwv(u, 'axis', 1)) == -1):
+      raise AnalysisError('%s: the projected vertices are not '
+                          'tf.unstack(<projection>, axis=-1)' % fn.qualname)
+    pr = u.args[0]
+    if not (isinstance(pr, ast.BinOp) and isinstance(pr.op, ast.Sub)):
+      probs.append('the projection is %s, expected affected_weights - '
+                   'correction' % norm_text(pr)[:50])
+      continue
+    x, co = pr.left, pr.right
+    if not (ext(x) == 'tf.stack' and const_value(kwv(x, 'axis', 1)) == -1):
+      raise AnalysisError('%s: the affected weights are not tf.stack([...], '
+                          'axis=-1)' % fn.qualname)
+    if not (isinstance(co, ast.BinOp) and isinstance(co.op, ast.Mult)):
+      probs.append('the correction is not correction_factor * hyperplane')
+      continue
+    fac, h = (co.left, co.right) if ext(co.left) == 'tf.expand_dims' else (
+        co.right, co.left)
+    if ext(fac) != 'tf.expand_dims' or const_value(kwv(fac, 'axis', 1)) != -1:
+      probs.append('the correction is not expand_dims(correction_factor, '
+                   'axis=-1) * hyperplane')
+      continue
+    if 'hyperplane' not in names_read(h):
+      probs.append('the correction is not correction_factor * hyperplane')
+    cf = fac.args[0]
+    if not (isinstance(cf, ast.BinOp) and isinstance(cf.op, ast.Div) and
+            ext(cf.right) == 'tf.reduce_sum' and isinstance(
+                cf.right.args[0], ast.BinOp) and isinstance(
+                    cf.right.args[0].op, ast.Mult) and txt(
+                        cf.right.args[0].left) == txt(h) and txt(
+                            cf.right.args[0].right) == txt(h) and
+            not cf.right.keywords and len(cf.right.args) == 1):
+      probs.append('the step is not violation / (hyperplane . hyperplane): '
+                   '%s' % norm_text(cf)[:60])
+      continue
+    vc = cf.left
+    if not (isinstance(vc, ast.Call) and len(vc.args) == 2):
+      raise AnalysisError('%s: clipping of the violation not found' %
+                          fn.qualname)
+    clip[word] = (ext(vc), const_value(vc.args[1]))
+    v0 = vc.args[0]
+    if not (ext(v0) == 'tf.reduce_sum' and isinstance(v0.args[0], ast.BinOp)
+            and isinstance(v0.args[0].op, ast.Mult) and {
+                txt(v0.args[0].left), txt(v0.args[0].right)} == {
+                    txt(x), txt(h)}):
+      raise AnalysisError('%s: violation is not reduce_sum(affected_weights '
+                          '* hyperplane)' % fn.qualname)
+    ax = const_value(kwv(v0, 'axis', 1))
+    if ax != -1:
+      probs.append('the violation is summed over axis %s, not over the '
+                   'stacked vertex axis -1' % ax)
+  if not probs:
+    if clip.get('valley') != ('tf.minimum', 0.0):
+      probs.append("'valley' must keep only negative violations "
+                   "(tf.minimum(violation, 0.0)); found %s" % (clip.get(
+                       'valley'),))
+    if clip.get('other') != ('tf.maximum', 0.0):
+      probs.append("'peak' must keep only positive violations "
+                   "(tf.maximum(violation, 0.0)); found %s" % (clip.get(
+                       'other'),))
+  probs = sorted(set(probs))
   res.check(not probs, rule, '_project_onto_hyperplane|formula', fn.loc(),
             'x - clip(x.h) / (h.h) * h with min for valley, max for peak',
             '; '.join(probs))
